@@ -1521,6 +1521,12 @@ private:
 	// REVISIT(PERFORMANCE): extra call to lookup
 	Wt tightened_w = w.get() - Wt(1); // w is odd: round down to even
 	m_graph.set_edge(v, tightened_w, v + 1);
+	// the weight went down: the potential has to follow, and the
+	// bounds may have become infeasible over the integers
+	if (!repair_potential(v, v + 1)) {
+	  set_to_bottom();
+	  return;
+	}
         CRAB_LOG("octagon-integer", crab::outs() << tightened_w << "\n";);
       }
       if (v % 2 != 0 && (m_graph.lookup(v, v - 1, w)) && (w.get() & 1)) {
@@ -1531,6 +1537,10 @@ private:
 	// REVISIT(PERFORMANCE): extra call to lookup
 	Wt tightened_w = w.get() - Wt(1); // w is odd: round down to even
 	m_graph.set_edge(v, tightened_w, v - 1);
+	if (!repair_potential(v, v - 1)) {
+	  set_to_bottom();
+	  return;
+	}
         CRAB_LOG("octagon-integer", crab::outs() << tightened_w << "\n";);
       }
     }
